@@ -39,6 +39,13 @@ LEVEL = "model_checking"
 SITE_NAME = {"file": "offsetDB.save", "generic": "offset.Save"}
 SYSCALLS = "openat,write,fsync,fdatasync,rename,renameat,renameat2,close,unlink,unlinkat"
 SYMS = {1: b"a", 2: b":", 3: b" ", 4: b"\n", 5: b"-", 6: "\u00e9".encode()}
+
+
+def sym_bytes(name):
+    """name symbols of OffsetsFormat.tla -> bytes: 1..6 are the structural symbols, anything above 6 is the byte itself"""
+    return b"".join(SYMS.get(x, bytes([x])) if x <= 6 else bytes([x]) for x in name)
+
+
 NUMS = {0: 0, 1: 1, 2: 2, 63: 2 ** 63 - 1, 64: 2 ** 64 - 1}
 
 
@@ -87,9 +94,10 @@ def cex_failed_steps(res):
 
 
 # ----------------------------------------------------------------------------------------------- scenarios
-FILE_JOBS = {1: {"src": 1, "inode": 1001, "file": b"/var/log/c07-1.log"},
-             2: {"src": 2, "inode": 1002, "file": b"/var/log/c07 2.log"}}
-STREAM_NAME = {1: b"stdout", 2: b"std:err"}
+# end-to-end names carry the bytes a naive writer/parser could trip on: '%' directives, space, ':', quote, '#', braces
+FILE_JOBS = {1: {"src": 1, "inode": 1001, "file": b"/var/log/report%20x-usage%d.log"},
+             2: {"src": 2, "inode": 1002, "file": b"/var/log/c07 2 'q' #{x}.log"}}
+STREAM_NAME = {1: b"stdout", 2: b"load%:err"}
 
 
 def init_vec(j, s):
@@ -541,6 +549,9 @@ def run(ctx):
         {"key": "format/residual", "module": "OffsetsFormat", "cfg": mcfg, "expect": "ok", "workers": 4},
         {"key": "format/mutant(M_ZeroOffsetsWritten=FALSE)", "module": "OffsetsFormat", "cfg": "OffsetsFormat_mutant.cfg",
          "expect": "violated", "violates": ("R_RoundTrip",), "workers": 2},
+        {"key": "format/mutant(M_NamesVerbatim=FALSE)", "module": "OffsetsFormat", "cfg": "OffsetsFormat_mutant.cfg",
+         "overrides": {"M_ZeroOffsetsWritten": "TRUE", "M_NamesVerbatim": "FALSE"},
+         "expect": "violated", "violates": ("R_RoundTrip",), "workers": 2},
         {"key": "format/faithful(D8)", "module": "OffsetsFormat", "cfg": "OffsetsFormat_quick.cfg",
          "overrides": {"Unconditional": "TRUE"}, "expect": "violated", "violates": ("RoundTrip",), "workers": 2},
     ]
@@ -564,8 +575,8 @@ def run(ctx):
         for i, tb in enumerate(tables):
             jl = []
             for j in tb["jobs"]:
-                jl.append({"src": NUMS[j["src"]], "inode": NUMS[j["inode"]], "file": hx(b"".join(SYMS[x] for x in j["file"])), "ts": 0,
-                           "streams": [{"name": hx(b"".join(SYMS[x] for x in s["name"])), "off": NUMS[s["off"]]} for s in j["streams"]]})
+                jl.append({"src": NUMS[j["src"]], "inode": NUMS[j["inode"]], "file": hx(sym_bytes(j["file"])), "ts": 0,
+                           "streams": [{"name": hx(sym_bytes(s["name"])), "off": NUMS[s["off"]]} for s in j["streams"]]})
             tb["_go"] = jl
             f.write(json.dumps({"id": i, "jobs": jl}) + "\n")
     rt_out = os.path.join(ctx.scratch, "c07_rt_out.json")
@@ -929,7 +940,8 @@ def run(ctx):
     ctx.rule = ("(a0) offset 0: every TLC schedule containing a truncation run in-process through the real truncateJob/commit/save "
                 "and a fresh real load after every save (%d sequences, async and sync mode).  " % len(seq_cases) +
                 "(a) round trip: every job table TLC enumerates from OffsetsFormat.tla (%d; names over {a : space newline - e-acute} "
-                "incl. the empty name, offsets 0/1/2^63-1, ids 1/2^64-1) through the real save and a fresh real load; non-trivial = "
+                "incl. the empty name, plus 50 stream names / 6 file names made of format directives ('%%d', '%%%%', 'a%%20b', '%%!d(MISSING)'), "
+                "backslash, quotes, tab, CR, '#', braces, YAML-ish scalars, offsets 0/1/2^63-1, ids 1/2^64-1) through the real save and a fresh real load; non-trivial = "
                 "table outside the D8 class with at least one special character in a stream name.  (b) protocol: %d distinct "
                 "schedules (file) / %d (generic) exported by TLC, %d distinct fault shapes; %s executed by the real code under "
                 "strace with the failing steps injected, each system-call trace replayed by TLC through OffsetsFileTrace.tla; "
